@@ -465,7 +465,15 @@ def _auth_rules(ctx, R):
         ifs = C.guarding_ifs(rets401[0], f.node)
         if ifs:
             found = src(ifs[0][0].test)
-            ok = "'X-Auth-Token' not in req.headers" == found
+            t = ifs[0][0].test
+            ok = isinstance(t, ast.Compare) and len(t.ops) == 1 and \
+                isinstance(t.ops[0], ast.NotIn) and isinstance(
+                    t.left, ast.Constant) and t.left.value == \
+                'X-Auth-Token' and isinstance(
+                    t.comparators[0], ast.Attribute) and \
+                t.comparators[0].attr == 'headers' and src(
+                    t.comparators[0].value) == (f.params + [None, None])[1] \
+                and ifs[0][1] == 'body'
         # every return of the application other than the root short-cut is
         # after the token test
         g = cfgmod.cfg_of(f)
@@ -515,7 +523,9 @@ def _can_shape(ctx, R):
     a = f.node.args
     defaults = dict(zip([x.arg for x in a.args][-len(a.defaults):],
                         a.defaults))
-    fd = defaults.get('fatal')
+    # the third argument after self (the position R16.1 reads 'fatal' from)
+    fparam = f.params[3] if len(f.params) > 3 else None
+    fd = defaults.get(fparam)
     R.ob('R16.4', 'can:fatal-default',
          isinstance(fd, ast.Constant) and fd.value is True,
          'can(..., fatal=True) by default', src(fd) if fd is not None else
@@ -532,7 +542,7 @@ def _can_shape(ctx, R):
         if isinstance(n, ast.ExceptHandler):
             body = n.body
             sw = len(body) == 2 and isinstance(body[0], ast.If) and src(
-                body[0].test) == 'fatal' and isinstance(
+                body[0].test) == fparam and isinstance(
                     body[0].body[0], ast.Raise) and not body[0].orelse
     R.ob('R16.4', 'can:reraise', sw,
          'PolicyNotAuthorized is swallowed only when fatal is false',
@@ -550,13 +560,15 @@ def _can_shape(ctx, R):
         a = g.node.args
         defaults = dict(zip([x.arg for x in a.args][-len(a.defaults):],
                             a.defaults))
-        d_ok = isinstance(dr, ast.Name) and dr.id == 'do_raise' and \
-            isinstance(defaults.get('do_raise'), ast.Constant) and \
-            defaults['do_raise'].value is True
+        ps = g.params + [None] * 4
+        d_ok = isinstance(dr, ast.Name) and dr.id == ps[3] and \
+            isinstance(defaults.get(ps[3]), ast.Constant) and \
+            defaults[ps[3]].value is True
         e_ok = ex is not None and prog.dotted(g.module, ex, g) == \
             'placement.exception.PolicyNotAuthorized'
-        args_ok = [src(x) for x in c.args[:3]] == ['action', 'target',
-                                                    'context']
+        # authorize(context, action, target, do_raise) ->
+        # enforcer.authorize(action, target, context)
+        args_ok = [src(x) for x in c.args[:3]] == [ps[1], ps[2], ps[0]]
         ok = d_ok and e_ok and args_ok
         found = 'do_raise=%s exc=%s args=%s' % (
             src(dr) if dr is not None else None,
